@@ -19,7 +19,7 @@ CHECKS = {
              'Every accepted sentence of the edge cover, production-pair cover and production-triple cover (expression leaves as identifiers and as integers) of the three live grammars; one lexeme respelling at a time (quotes, backslashes, keywords and keyword-like names with $ as identifiers, quoted variables incl. line breaks, numbers); one-token-per-line layout; every keyword as identifier in 8 contexts; USING-list family; every raw-query command x lexeme sequences of length <=2 x 5 layouts + multi-line bodies. Sibling-pair cover (every two nonterminal positions of a production x every pair of expansions, so both elements of two-element lists range over all alternatives), and every sentence also spelt with all names equal (name coincidences between clauses). ~1.7 M round trips in the quick tier.',
              'to_tree() is taken as tree identity; bounded to one respelling per sentence (thorough: k=2 states, every keyword at the first identifier of every sentence, string leaves). 280 printer defects of the pinned tree are listed as known findings by signature.', 'DESIGN.md 3/C01, 9.6, 9.7'),
     'C02': C('model_checking', 'GSX', GSX_T + '; plus exhaustive short strings / token pairs / size ladder / pumping family',
-             'Every reachable cell of the three action tables (valid and error cells), every production pair and triple, every one-token deviation at every abstract parser state, all strings of length <=3 over a 31-character alphabet, all token pairs, lexeme respellings, USING-list family, keywords respelt with non-ASCII letters that case-fold onto ASCII, a size ladder and a pumping family, one code point per Unicode general category (+ unnamed, surrogate and oddly classified characters) in 20 lexical contexts, the sibling-pair cover (19 openers x units of length <=2 over 16 characters x N in {16, 64}, open and closed) are replayed through parse_sql; any outcome other than tree / ParsingException / LexError, or no outcome within 20 s, is a violation. ~3.0 M parses in the quick tier.',
+             'Every reachable cell of the three action tables (valid and error cells), every production pair and triple, every one-token deviation at every abstract parser state, all strings of length <=3 over a 31-character alphabet, all token pairs, lexeme respellings, USING-list family, keywords respelt with non-ASCII letters that case-fold onto ASCII, a size ladder and a pumping family, one code point per Unicode general category (+ unnamed, surrogate and oddly classified characters) in 20 lexical contexts, a length ladder (10 ... 20000 characters) for integers / decimals / names / literals / comments, the sibling-pair cover (19 openers x units of length <=2 over 16 characters x N in {16, 64}, open and closed) are replayed through parse_sql; any outcome other than tree / ParsingException / LexError, or no outcome within 20 s, is a violation. ~3.0 M parses in the quick tier.',
              'Bounded: one (thorough: two) token deviations, strings <=3 chars, nesting <=100, pump length 64 (thorough 256); the per-case 20 s guard stands for termination.', 'DESIGN.md 3/C02, 2/E1'),
     'C03': C('exploration', 'GSX+SQLREF', BEX + ': all operator trees up to a size bound, printed with minimal parentheses; structural oracle + sqlite evaluation over {NULL,0,1,2}',
              'All operator trees with <=2 operator nodes over all listed operators (with every redundant parenthesis pair, and with every blank of the text as line break / tab / two blanks), 3 nodes over precedence-class representatives (thorough: all operators, 4 over representatives), in up to 6 expression contexts per dialect. The parsed expression must equal the generating tree node for node, parentheses flags exact; the generator itself is cross-checked by evaluating minimal vs fully parenthesised text in sqlite.',
@@ -61,16 +61,16 @@ CHECKS = {
              'The dataframe handed to the time-series model is computed by interpreting the plan and compared with the specification evaluated directly on the table (ties: any maximal choice); 16 unsupported shapes must be rejected. The WHERE conjuncts are also arranged as 9 other AND trees (order, nesting, parentheses; partition filter on two columns); unsupported clauses written inside a data sub-select must be refused or carried out, never dropped. Boundary windows 0 and 5; the second plan of each statement on a reused QueryPlanner is judged.',
              'sqlite runs the per-partition fetches; 286 (thorough 1001) table contents.', 'DESIGN.md 3/C15'),
     'C16': C('exploration', 'GSX lexemes', BEX + ': all balanced lexeme sequences of length <=3 (thorough 4) over a 38-lexeme collision alphabet x 15 embedding commands x 5 layouts, plus every accepted grammar sentence as inner query',
-             'Source slices of the live lexer tokens of inner text and stored text must be equal and both must parse to the same tree. Twin lexemes (one name as identifier / @variable / @@variable / each quoted form): all sequences of <=2, and each embedded after each other one was lexed by an earlier statement of the same process.',
+             'Source slices of the live lexer tokens of inner text and stored text must be equal and both must parse to the same tree. Twin lexemes (one name as identifier / @variable / @@variable / each quoted form): all sequences of <=2, and each embedded after each other one was lexed by an earlier statement of the same process. Spellings of literals other SQL dialects have (dollar quoting, prefixed strings, hex / exponent numbers) in sequences of <=2.',
              'Equality up to whitespace and comments = equality of token source slices.', 'DESIGN.md 3/C16'),
     'C17': C('exploration', 'GSX+REFLECT', BEX + ': every accepted production-pair sentence of the three grammars (incl. unsupported shapes) x 7 dialect names x 2 methods x fallback on/off, on renderers with a history and on new renderers',
              'Exception contract and non-mutation (reflective fingerprint) on every tree the parsers can produce within the grammar covers; every answer of a renderer that has rendered other statements (both call orders) must equal the answer of a new renderer.',
              'Quick: production-pair cover; thorough adds edge cover and lexeme respellings.', 'DESIGN.md 3/C17'),
     'C18': C('exploration', 'GSX+REFLECT', BEX + ': every accepted production-pair sentence x every single mutation of every mutable object of a copy; identity-set and fingerprint oracles; equality laws on trees, steps, plans and plan variants',
-             'copy()/deepcopy independence is checked by mutating every attribute / list / dict of a copy and fingerprinting the original; equality laws against 9 partner kinds; every plan against its prefix / extended / swapped / replaced-step variants (equal plans must print the same).',
+             'copy()/deepcopy independence is checked by mutating every attribute / list / dict of a copy and fingerprinting the original; equality laws against 9 partner kinds; every plan against its prefix / extended / swapped / replaced-step variants (equal plans must print the same). Edge-case respellings of names and literals (edge blanks, inner dots, capitals) on every production-pair sentence; sibling-pair cover included.',
              'Plans come from a fixed two-integration catalog.', 'DESIGN.md 3/C18'),
     'C19': C('model_checking', 'GSX', GSX_T + '; oracle: generated text positions + recovery-free PDA for the offending token and for acceptability of suggestions',
-             'Every rejected one-token deviation at every abstract state (all reachable error cells) plus layout variants of one representative per state, illegal characters at every position and after every token that can span a line break, and errors at the end of pumped lists (3, 40, 2500 elements). Every end-of-query truncation is also judged after another truncation that stops in the same parser state was rejected in the process.',
+             'Every rejected one-token deviation at every abstract state (all reachable error cells) plus layout variants of one representative per state, illegal characters at every position and after every token that can span a line break, and errors at the end of pumped lists (3, 40, 2500 elements). Every end-of-query truncation is also judged after another truncation that stops in the same parser state was rejected in the process. Illegal characters also in texts with CR LF / bare CR / tab + LF line breaks.',
              'Only token texts are compared between shown and source lines; placeholders are not judged.', 'DESIGN.md 3/C19'),
     'C20': C('model_checking', 'SCHED', 'stateless schedule exploration of real threads under a cooperative scheduler (sys.monitoring scheduling points, iterative preemption bounding, every simple global restored to its import-time value before each schedule) + explicit-state BFS over call histories with global-state fingerprints + ' + HIST_T + ' + finite hash-seed sweep',
              'All schedules with <=1 preemption for 21 colliding call pairs (bound 2 at coarse granularity for 4 pairs; LINE granularity in named functions), all call histories of depth 3 over 25 operations sharing catalog and renderer objects, all ordered pairs of a planner corpus as process histories and on one reused QueryPlanner, an order differential (the one-token deviations of every parser state parsed front-to-back and back-to-front in two fresh processes must be answered alike), read-only calls (str, repr, ==, copy, walk) on the tree before planning / rendering, planner-reuse histories under a catalog without default namespace, an order differential over planner inputs, all ordered pairs of 192 renderer operations (renderers made by dialect name / dialect class / shared), seeds 0..3 in fresh interpreters (thorough: bound 2 for all pairs, triples, depth 4, full corpus, 34 seeds). Every observation must equal the fresh reference.',
